@@ -249,6 +249,26 @@ func TestC14(t *testing.T) {
 		}
 		run(c14Case{Ctor: "linktest.req", Code: 0, Session: 0xFFFF, System: rsys()})
 	}
+	// boundary session ids crossed with every status / reason code (the sweeps above pair each code with one random session)
+	for _, sess := range []int{0, 1, 10, 255, 256, 0x0A00, 0x7FFF, 0x8000, 0xFFFE, 0xFFFF} {
+		for code := 0; code < 256; code++ {
+			run(c14Case{Ctor: "select.rsp", ReqKind: "select.req", Session: sess, Code: code, System: rsys()})
+			run(c14Case{Ctor: "deselect.rsp", ReqKind: "decoded:deselect.req", Session: sess, Code: code, System: rsys()})
+			for _, b2 := range []int{0, 1, 10, 255} {
+				run(c14Case{Ctor: "reject.req", Session: sess, PType: b2, SType: b2, Code: code, System: rsys()})
+			}
+		}
+	}
+	// raw headers whose first four bytes take every combination of a few telling values (zero, ten = the length of a
+	// control message, small, top bit, all ones), for every defined SType
+	tell := []byte{0x00, 0x0A, 0x01, 0x80, 0xFF}
+	for _, st := range []int{1, 2, 3, 4, 5, 6, 7, 9} {
+		for i := 0; i < 625; i++ {
+			r := rnd()
+			hdr := model.HexBytes{tell[i%5], tell[i/5%5], tell[i/25%5], tell[i/125%5], 0, byte(st), byte(r), byte(r >> 8), byte(r >> 16), byte(r >> 24)}
+			run(c14Case{Ctor: "raw", PType: 0, SType: st, Header: hdr, System: model.HexBytes(hdr[6:10])})
+		}
+	}
 	// reject.req over (ptype, stype, reason): all 2^24 in thorough mode, boundary x boundary + random otherwise
 	if isThorough() {
 		for p := 0; p < 256; p++ {
